@@ -27,6 +27,24 @@ type pathMatcher interface {
 	String() string
 }
 
+// asciiToUpper upper-cases the ASCII letters of s and leaves every other byte
+// untouched: case_insensitive path matching is ASCII-only, Unicode case mapping
+// would make e.g. U+017F match "S".
+func asciiToUpper(s string) string {
+	for i := 0; i < len(s); i++ {
+		if c := s[i]; 'a' <= c && c <= 'z' {
+			b := []byte(s)
+			for ; i < len(b); i++ {
+				if c := b[i]; 'a' <= c && c <= 'z' {
+					b[i] = c - ('a' - 'A')
+				}
+			}
+			return string(b)
+		}
+	}
+	return s
+}
+
 type pathExactMatcher struct {
 	// fullPath is all upper case if caseInsensitive is true.
 	fullPath        string
@@ -39,14 +57,14 @@ func newPathExactMatcher(p string, caseInsensitive bool) *pathExactMatcher {
 		caseInsensitive: caseInsensitive,
 	}
 	if caseInsensitive {
-		ret.fullPath = strings.ToUpper(p)
+		ret.fullPath = asciiToUpper(p)
 	}
 	return ret
 }
 
 func (pem *pathExactMatcher) match(path string) bool {
 	if pem.caseInsensitive {
-		return pem.fullPath == strings.ToUpper(path)
+		return pem.fullPath == asciiToUpper(path)
 	}
 	return pem.fullPath == path
 }
@@ -67,14 +85,14 @@ func newPathPrefixMatcher(p string, caseInsensitive bool) *pathPrefixMatcher {
 		caseInsensitive: caseInsensitive,
 	}
 	if caseInsensitive {
-		ret.prefix = strings.ToUpper(p)
+		ret.prefix = asciiToUpper(p)
 	}
 	return ret
 }
 
 func (ppm *pathPrefixMatcher) match(path string) bool {
 	if ppm.caseInsensitive {
-		return strings.HasPrefix(strings.ToUpper(path), ppm.prefix)
+		return strings.HasPrefix(asciiToUpper(path), ppm.prefix)
 	}
 	return strings.HasPrefix(path, ppm.prefix)
 }
